@@ -56,11 +56,10 @@ Proof.
   vm_compute in E. discriminate.
 Qed.
 
-(* ---- form fields: the font size of the appearance does not follow the zoom ---- *)
-Theorem form_font_size_ignores_zoom (z fs : Q) : form_font_size z fs == form_font_size 1 fs.
-Proof. reflexivity. Qed.
-Theorem form_font_size_not_linear : ~ form_font_size 2 10 == 2 * form_font_size 1 10.
-Proof. vm_compute. discriminate. Qed.
+(* ---- form fields: the font size of the default appearance and of the check / radio appearance streams ---- *)
+Theorem form_font_size_linear (z fs : Q) :
+  form_font_size z fs == z * form_font_size 1 fs /\ radio_font_size z fs == z * radio_font_size 1 fs.
+Proof. unfold form_font_size, radio_font_size, scale. split; field. Qed.
 
 (* ---- copy_selects_exactly ---- *)
 Theorem copy_selects_exactly (Page Meta Out : Type) (paint : Page -> Out) (d : document Page Meta) (sel : list Page) :
